@@ -3,9 +3,12 @@
 
 static const char* const CLS[] = {
     "valid", "abbreviated", "accent-edit", "token-edit", "foreign-word", "empty-token", "separator-edit", "count-edit",
-    "length-edit", "unicode", "raw-bytes", "ambiguous", "wrong-checksum", "reserved-feature", "trailing-space", "case-edit",
+    "length-edit", "unicode", "raw-bytes", "ambiguous", "wrong-checksum", "reserved-feature", "trailing-space", "case-edit", "byte-edit",
 };
-enum { G_VALID, G_ABBREV, G_ACCENT, G_TOKEN, G_FOREIGN, G_EMPTY, G_SEP, G_COUNT, G_LENGTH, G_UNICODE, G_BYTES, G_AMBIG, G_CHECKSUM, G_RESERVED, G_TRAIL, G_CASE, G_N };
+enum { G_VALID, G_ABBREV, G_ACCENT, G_TOKEN, G_FOREIGN, G_EMPTY, G_SEP, G_COUNT, G_LENGTH, G_UNICODE, G_BYTES, G_AMBIG, G_CHECKSUM, G_RESERVED, G_TRAIL, G_CASE, G_BYTEEDIT, G_N };
+/* code points whose UTF-8 encodings are the byte-wise neighbours of the combining-mark block U+0300-U+036F (CC 80 .. CD AF) */
+static const uint32_t EDGE_CP[] = { 0x2ff, 0x300, 0x33f, 0x340, 0x34f, 0x36f, 0x370, 0x371, 0x37e, 0x37f, 0x380, 0x2c0, 0x3b1 };
+#define N_EDGE_CP (sizeof EDGE_CP / sizeof *EDGE_CP)
 
 typedef struct tokv { char* t[40]; int n; } tokv;
 static void tv_free(tokv* v) { for (int i = 0; i < v->n; ++i) free(v->t[i]); v->n = 0; }
@@ -43,8 +46,9 @@ static char* join_v(const tokv* v, const char* sep) {
 }
 static uint32_t rand_cp(pv_rng* r) {
     for (;;) {
-        uint32_t k = pv_randn(r, 12), c;
+        uint32_t k = pv_randn(r, 13), c;
         switch (k) {
+        case 12: c = EDGE_CP[pv_randn(r, N_EDGE_CP)]; break;
         case 0: c = 0x20 + pv_randn(r, 0x5f); break;
         case 1: c = 0xa0 + pv_randn(r, 0x160); break;              /* Latin-1 / Latin Extended */
         case 2: c = 0x300 + pv_randn(r, 0x70); break;              /* combining marks */
@@ -94,11 +98,11 @@ void pv_gen_string(pv_rng* r, unsigned enabled, pv_gstr* g) {
     case G_ACCENT:
         for (int i = 0; i < 16; ++i) if (i == 0 || pv_randn(r, 2)) {
             uint32_t cp[128], out[160]; int n = pv_utf8_decode(v.t[i], cp, 128), m = 0;
-            if (pv_randn(r, 6) == 0) out[m++] = 0x300 + pv_randn(r, 5);          /* a stray mark in front of the first letter (dead key typed first) */
+            if (pv_randn(r, 6) == 0) out[m++] = pv_randn(r, 4) ? 0x300 + pv_randn(r, 5) : EDGE_CP[pv_randn(r, N_EDGE_CP)];          /* a stray mark in front of the first letter (dead key typed first) */
             for (int k = 0; k < n; ++k) {
                 if (pv_is_accent(cp[k]) && pv_randn(r, 2)) continue;             /* drop */
                 out[m++] = cp[k];
-                if (!pv_is_accent(cp[k]) && pv_randn(r, 12) == 0) out[m++] = 0x300 + pv_randn(r, 5);   /* add */
+                if (!pv_is_accent(cp[k]) && pv_randn(r, 12) == 0) out[m++] = pv_randn(r, 4) ? 0x300 + pv_randn(r, 5) : EDGE_CP[pv_randn(r, N_EDGE_CP)];   /* add */
             }
             free(v.t[i]); v.t[i] = cp_to_utf8(out, m);
         }
@@ -139,6 +143,20 @@ void pv_gen_string(pv_rng* r, unsigned enabled, pv_gstr* g) {
         }
         t[k] = 0; free(s); s = t;
     }
+    if (cls == G_BYTEEDIT) {
+        /* one to three raw bytes inserted into / written over an otherwise valid phrase: lead bytes without continuation,
+         * stray continuation bytes, the lead bytes of the combining-mark block in front of a letter, a space or the terminator */
+        static const uint8_t RAW[] = { 0xCC, 0xCD, 0xCB, 0xCE, 0x80, 0xBF, 0xAF, 0xB0, 0xC3, 0xC2, 0xE3, 0xEA, 0xF0, 0xFF, 0xC0, 0xED, 0xA0 };
+        size_t n = strlen(s); char* t = pv_xmalloc(n + 8); int edits = 1 + (int)pv_randn(r, 3);
+        memcpy(t, s, n + 1);
+        for (int e = 0; e < edits; ++e) {
+            size_t len = strlen(t), at = pv_randn(r, 5) == 0 ? len : pv_randn(r, (uint32_t)len + 1);
+            uint8_t b = RAW[pv_randn(r, sizeof RAW)];
+            if (pv_randn(r, 2) && at < len) t[at] = (char)b;                                  /* overwrite */
+            else { memmove(t + at + 1, t + at, len - at + 1); t[at] = (char)b; }              /* insert */
+        }
+        free(s); s = t;
+    }
     if (cls == G_TRAIL) { size_t n = strlen(s); char* t = pv_xmalloc(n + 8); memcpy(t, s, n); const char* tail = pv_randn(r, 2) ? " " : (pv_randn(r, 2) ? "\xe3\x80\x80" : "\xc2\xa0"); strcpy(t + n, tail); free(s); s = t; }
     if (cls == G_LENGTH) {
         /* pad towards the buffer boundary, or far beyond it */
@@ -168,7 +186,7 @@ void pv_gen_string(pv_rng* r, unsigned enabled, pv_gstr* g) {
         for (size_t i = 0; i < n; ++i) { uint8_t b = (uint8_t)pv_rand64(r); if (pv_randn(r, 6) == 0) b = ' '; s[i] = (char)(b ? b : 0x80); }
         s[n] = 0;
     }
-    if (compose && cls != G_BYTES) { char* c = pv_nfc_alloc(s); free(s); s = c; }
+    if (compose && cls != G_BYTES && cls != G_BYTEEDIT) { char* c = pv_nfc_alloc(s); free(s); s = c; }
     g->s = pv_exact_str(s);          /* exact-size block: a read past the terminator hits a red zone */
     free(s);
     g->len = strlen(g->s);
